@@ -1,0 +1,8 @@
+//go:build verif
+
+package qr
+
+import "github.com/boombuler/barcode/utils"
+
+// VerifC17Encoder exposes the package-level Reed-Solomon encoder.
+func VerifC17Encoder() *utils.ReedSolomonEncoder { return ec.rs }
